@@ -28,6 +28,9 @@ def run(ctx):
     R1 = ctx.rule('C04.R1', 'validate and validate_and_filter_if_invalid run the same stages in the same order on the transcoded, charset-validated range; stage failures are never ignored')
     R2 = ctx.rule('C04.R2', 'filter output: an entry is copied verbatim only if it is not invalid; invalid entries are removed or escaped')
     R3 = ctx.rule('C04.R3', 'the escape switch neutralises < > & " for every byte (abstract interpretation) and copies every other byte')
+    R4 = ctx.rule('C04.R4', 'tokeniser tiles the input: every entry starts at the cursor and the cursor moves to exactly that entry\'s end (no gap, no overlap, nothing else moves it); a plain_text entry is opened only on a byte other than < > & and extended only over such bytes')
+    R10 = ctx.rule('C04.R10', 'tokeniser entries have the shape of their kind, for every input up to a bounded length (E3): the entries tile the input; plain_text = [^<>&]+, html_entity = &[^;]*;, html_tag = <[^>]*>, html_comment = <!-- text without < > & and without "--" -->')
+    R5 = ctx.rule('C04.R5', 'attribute values: validate_property_value accepts exactly ([^<>&] | &amp; | &lt; | &gt; | &quot; | &apos; | &#x27; | &#X27; | &#39;)* (E3: every value of 0..2 bytes, every single-byte variation of each entity inside a context, every truncation)')
     R6 = ctx.rule('C04.R6', 'validate_entry_by_rules handles every html_data_type explicitly; invalid / unparsed entries and unknown kinds are rejected; tags and attributes consult the white-list')
     R9 = ctx.rule('C04.R9', 'tag names are compared exactly when nesting is validated: ascii_streq is true iff both names have the same length and agree byte for byte (XHTML) / up to ASCII case (HTML) (E3, names of 0..3 bytes)')
     R7 = ctx.rule('C04.R7', 'attribute / URI expressions are matched as whole strings (regex_match only)')
@@ -306,6 +309,344 @@ def run(ctx):
         rel = set((index_of_target(w), vn.ref_of(vn.N(w)['ch'][1])) for w in ws)
         okm = okm and len(rel) == 2 and None not in [x for pr in rel for x in pr] and all((b2, a2) in rel for (a2, b2) in rel) and all(a2 != b2 for (a2, b2) in rel)
     ctx.check(okm, R9, 'validate_nesting:pairing-is-mutual', 'a paired tag does not record the index of its partner (the filter then keeps one end of a rejected pair)', vn.where)
+
+    # ---------------- R4 tokeniser tiling
+    sp = P.fn(ANON + 'split_to_parts')
+    endp = q.param_by_index(sp, 1)
+    mains = [L for L in q.loops(sp) if sp.N(L)['k'] in ('WhileStmt', 'ForStmt') and not q.enclosing_loops(sp, L) and
+             any(sp.bcallee(i) and q.short_of(sp.bcallee(i)) in ('push_back', 'emplace_back') for i in sp.calls(sp.N(L)['body']))]
+    ctx.require(len(mains) == 1, 'C04.R4: main loop of split_to_parts not found')
+    ML = mains[0]
+    cnd = sp.N(sp.strip(sp.N(ML)['cond']))
+    cur = [r for r in sp.subtree_refs(sp.N(ML)['cond']) if r.startswith('v:')]
+    ctx.require(len(cur) == 1 and endp in sp.subtree_refs(sp.N(ML)['cond']) and cnd['k'] == 'BinaryOperator' and cnd.get('op') in ('!=', '<'), 'C04.R4: main loop is not `cursor != end`')
+    cur = cur[0]
+    d0 = [v for (d, v) in sp.defs_of_var(cur) if not sp.contains(ML, d)]
+    ctx.check(len(d0) == 1 and d0[0] is not None and sp.ref_of(d0[0]) == q.param_by_index(sp, 0), R4, 'split_to_parts:cursor-starts-at-begin', 'the cursor does not start at the beginning of the input', sp.loc(ML))
+    pushes = [i for i in sp.calls(sp.N(ML)['body']) if sp.bcallee(i) and q.short_of(sp.bcallee(i)) in ('push_back', 'emplace_back')]
+    curw = [w for w in q.writes_to(sp, cur, sp.N(ML)['body'])]
+    paired = set()
+
+    def is_cur_plus_1(x):
+        n_ = sp.N(sp.strip(x))
+        return n_['k'] == 'BinaryOperator' and n_.get('op') == '+' and sp.ref_of(n_['ch'][0]) == cur and sp.const_value(n_['ch'][1]) == 1
+    plain = []
+    for k, i in enumerate(pushes):
+        ctor = [j for j in sp.walk(i) if sp.N(j)['k'] in ('CXXConstructExpr', 'CXXTemporaryObjectExpr') and (sp.type_of(sp.N(j)) or '').endswith('entry') and len(sp.args(j)) == 3]
+        if not ctor:
+            ctx.check(False, R4, 'split_to_parts:entry#%d:shape' % k, 'entry is not built as entry(begin,end,type)', sp.loc(i))
+            continue
+        a = sp.args(ctor[0])
+        tcv = sp.const_value(a[2])
+        nxt = [w for w in curw if q.between(sp, i, w, sp.N(ML)['cond']) or sp.point_of(w)[0] == sp.last_point_of(i)[0] and sp.point_of(w)[1] > sp.last_point_of(i)[1]]
+        okn = len(nxt) == 1 and q.always_after(sp, i, nxt)
+        if okn:
+            w = nxt[0]
+            m = sp.N(w)
+            if m['k'] == 'BinaryOperator' and m.get('op') == '=':
+                okn = q.canon(sp, m['ch'][1]) == q.canon(sp, a[1])
+            elif m['k'] == 'UnaryOperator' and m.get('op') == '++' or (m['k'] == 'CompoundAssignOperator' and m.get('op') == '+=' and sp.const_value(m['ch'][1]) == 1):
+                okn = is_cur_plus_1(a[1])
+            else:
+                okn = False
+            paired.add(w)
+        ctx.check(sp.ref_of(a[0]) == cur and okn, R4, 'split_to_parts:entry#%d:starts-at-cursor-and-cursor-moves-to-its-end' % k,
+                  'an entry does not start at the cursor, or the cursor is not moved to exactly the end of that entry (bytes lost or seen twice)', sp.loc(i))
+        isplain = any(model.strip_targs(r).endswith('plain_text') for r in sp.subtree_refs(a[2]))
+        if isplain:
+            plain.append((k, i, a))
+    # `cursor = helper(cursor, ...)` where the helper emits exactly one entry [its cursor parameter, X) on every path and returns that X
+    def tile_helper(g, pidx):
+        if g is None or g.entry is None or pidx >= len(g.params):
+            return False
+        p0 = g.params[pidx]['ref']
+        if q.writes_to(g, p0):
+            return False
+        gp = [i for i in g.calls() if g.bcallee(i) and q.short_of(g.bcallee(i)) in ('push_back', 'emplace_back')]
+        rets = g.returns()
+        if not gp or len(gp) != len(rets):
+            return False
+        used = set()
+        for i in gp:
+            ctor = [j for j in g.walk(i) if g.N(j)['k'] in ('CXXConstructExpr', 'CXXTemporaryObjectExpr') and (g.type_of(g.N(j)) or '').endswith('entry') and len(g.args(j)) == 3]
+            if not ctor or g.ref_of(g.args(ctor[0])[0]) != p0:
+                return False
+            if any(model.strip_targs(r).endswith('plain_text') for r in g.subtree_refs(g.args(ctor[0])[2])):
+                return False
+            mine = [r for r in rets if r not in used and g.ret_value(r) is not None and q.canon(g, g.ret_value(r)) == q.canon(g, g.args(ctor[0])[1]) and q.before(g, i, r) and q.always_after(g, i, [r])]
+            if len(mine) != 1:
+                return False
+            # nothing moves the end expression between the push and the return
+            xv = [r for r in g.subtree_refs(g.args(ctor[0])[1]) if r.startswith(('v:', 'p:'))]
+            if any(q.between(g, i, w, mine[0]) for r in xv for w in q.writes_to(g, r)):
+                return False
+            used.add(mine[0])
+        return len(used) == len(rets)
+    nh = 0
+    for w in curw:
+        m = sp.N(w)
+        if w in paired or not (m['k'] == 'BinaryOperator' and m.get('op') == '='):
+            continue
+        c_ = sp.strip(m['ch'][1])
+        if sp.N(c_)['k'] != 'CallExpr':
+            continue
+        g_ = P.fns.get(sp.N(c_).get('callee') or '')
+        ai = [k_ for k_, a_ in enumerate(sp.args(c_)) if sp.ref_of(a_) == cur]
+        plain_arg = any(model.strip_targs(r).endswith('plain_text') for a_ in sp.args(c_) for r in sp.subtree_refs(a_))
+        okh = len(ai) == 1 and not plain_arg and tile_helper(g_, ai[0])
+        nh += 1
+        ctx.check(okh, R4, 'split_to_parts:helper-entry#%d:emits-one-entry-from-the-cursor-and-returns-its-end' % nh,
+                  'the cursor is taken from a helper that does not emit exactly the entry [cursor, returned position)', sp.loc(w))
+        if okh:
+            paired.add(w)
+    ctx.check(set(curw) == paired and bool(curw), R4, 'split_to_parts:cursor-moved-only-past-an-entry', 'the cursor is advanced without an entry covering the skipped bytes', sp.loc([w for w in curw if w not in paired][0]) if set(curw) - paired else sp.where)
+    ctx.check(len(plain) >= 1, R4, 'split_to_parts:plain-text-entries-found', 'no plain_text entry is produced', sp.where)
+
+    def ne_gate(f, K, over):
+        """edges on which the byte under `over` (a pointer variable) is known to differ from K"""
+        def pred(atom, pol):
+            n_ = f.N(atom)
+            if n_['k'] != 'BinaryOperator' or n_.get('op') not in ('==', '!='):
+                return False
+            l_, r_ = n_['ch']
+            for x, c in ((l_, r_), (r_, l_)):
+                if f.const_value(c) == K and over in q.deep_refs(f, x):
+                    return (n_['op'] == '==' and pol is False) or (n_['op'] == '!=' and pol is True)
+            return False
+        return f.gate_edges(pred)
+    for (k, i, a) in plain:
+        for K, nm_ in ((60, '<'), (62, '>'), (38, '&')):
+            g_ = ne_gate(sp, K, cur)
+            ctx.check(bool(g_) and sp.only_through(i, g_), R4, 'split_to_parts:plain#%d:opened-on-a-byte-other-than-%s' % (k, nm_), 'a plain_text entry can start with %s' % nm_, sp.loc(i))
+        ev = sp.ref_of(a[1])
+        scans = [L for L in q.loops(sp) if L != ML and ev and q.writes_to(sp, ev, L)]
+        ok = ev is not None and len(scans) == 1
+        if ok:
+            SL = scans[0]
+            steps = [w for w in q.writes_to(sp, ev, SL) if not (sp.N(SL).get('init') is not None and sp.N(SL).get('init', -1) >= 0 and sp.contains(sp.N(SL)['init'], w))]
+            init = [w for w in q.writes_to(sp, ev, SL) if w not in steps] + [d for (d, v) in sp.defs_of_var(ev) if v is not None and not sp.contains(SL, d) and q.reaches(sp, d, SL)]
+            ok = len(steps) == 1 and (sp.N(steps[0])['k'] == 'UnaryOperator' and sp.N(steps[0]).get('op') == '++')
+            for K, nm_ in ((60, '<'), (62, '>'), (38, '&')):
+                g_ = ne_gate(sp, K, ev)
+                ok = ok and bool(g_) and all(sp.only_through(st, g_) for st in steps)
+            # starts right behind the first byte
+            iv = [v for (d, v) in sp.defs_of_var(ev) if v is not None and (sp.contains(SL, d) and d not in steps or not sp.contains(SL, d))]
+            ok = ok and any(is_cur_plus_1(v) for v in iv) and all(is_cur_plus_1(v) or sp.const_value(v) == 0 for v in iv)
+        ctx.check(ok, R4, 'split_to_parts:plain#%d:extended-only-over-bytes-other-than-<>&' % k, 'the scan that extends a plain_text entry steps over a byte that opens markup', sp.loc(i))
+    # entries of a delimited kind end with their delimiter: the entry is emitted only on the edge where the last byte it covers was
+    # compared equal to it (a tag that does not end in '>' or an entity that does not end in ';' would be re-read by a browser differently)
+    TERM = {'html_tag': 62, 'html_entity': 59, 'html_comment': 62}
+
+    def eq_gate(f, Kmatch):
+        def pred(atom, pol):
+            n_ = f.N(atom)
+            if n_['k'] != 'BinaryOperator' or n_.get('op') not in ('==', '!='):
+                return False
+            for x, c in ((n_['ch'][0], n_['ch'][1]), (n_['ch'][1], n_['ch'][0])):
+                if Kmatch(c) and f.N(f.strip(x))['k'] in ('UnaryOperator', 'ArraySubscriptExpr', 'DeclRefExpr'):
+                    return (n_['op'] == '==' and pol is True) or (n_['op'] == '!=' and pol is False)
+            return False
+        return f.gate_edges(pred)
+    nt = 0
+    for k, i in enumerate(pushes):
+        ctor = [j for j in sp.walk(i) if sp.N(j)['k'] in ('CXXConstructExpr', 'CXXTemporaryObjectExpr') and (sp.type_of(sp.N(j)) or '').endswith('entry') and len(sp.args(j)) == 3]
+        if not ctor:
+            continue
+        ta = sp.args(ctor[0])[2]
+        trefs = set(sp.subtree_refs(ta))
+        for r in list(trefs):
+            if r.startswith('v:'):
+                for (_, v_) in sp.defs_of_var(r):
+                    if v_ is not None:
+                        trefs |= set(sp.subtree_refs(v_))
+        kinds = set(model.strip_targs(r).rsplit('::', 1)[-1] for r in trefs) & set(TERM)
+        # a local `type` variable initialised with the kind and possibly downgraded to invalid_data
+        for kind in kinds:
+            nt += 1
+            g_ = eq_gate(sp, lambda c, K=TERM[kind]: sp.const_value(c) == K)
+            ctx.check(bool(g_) and sp.only_through(i, g_), R4, 'split_to_parts:entry#%d:%s-ends-with-its-delimiter' % (k, kind), 'a %s entry is emitted without its closing delimiter having been seen' % kind, sp.loc(i))
+    for w in [w for w in curw if sp.N(w)['k'] == 'BinaryOperator' and sp.N(sp.strip(sp.N(w)['ch'][1]))['k'] == 'CallExpr']:
+        c_ = sp.strip(sp.N(w)['ch'][1])
+        g_ = P.fns.get(sp.N(c_).get('callee') or '')
+        if g_ is None or g_.entry is None:
+            continue
+        kinds = [(ai_, model.strip_targs(r).rsplit('::', 1)[-1]) for ai_, a_ in enumerate(sp.args(c_)) for r in sp.subtree_refs(a_) if model.strip_targs(r).rsplit('::', 1)[-1] in TERM]
+        for (ai_, kind) in kinds:
+            nt += 1
+            tparams = [pi_ for pi_, a_ in enumerate(sp.args(c_)) if sp.const_value(a_) == TERM[kind] and pi_ != ai_]
+            okk = False
+            for pi_ in tparams:
+                tp = g_.params[pi_]['ref']
+                gg = eq_gate(g_, lambda c, tp=tp: g_.ref_of(c) == tp)
+                gp_ = [i for i in g_.calls() if g_.bcallee(i) and q.short_of(g_.bcallee(i)) in ('push_back', 'emplace_back') and g_.params[ai_]['ref'] in g_.subtree_refs(i)]
+                okk = okk or (bool(gg) and bool(gp_) and all(g_.only_through(i, gg) for i in gp_) and not q.writes_to(g_, tp))
+            ctx.check(okk, R4, 'split_to_parts:helper-entry:%s-ends-with-its-delimiter' % kind, 'a %s entry is emitted by the helper without its closing delimiter having been seen' % kind, sp.loc(w))
+    ctx.check(nt >= 3, R4, 'split_to_parts:delimited-entries-found', 'expected tag, entity and comment entries', sp.where)
+    ctx.floor(R4, 12)
+
+    # ---------------- R10 tokeniser output shape, exhaustively for short inputs (E3)
+    import re as _re2, itertools as _it
+    from vlib.absint import Arr as _Arr2, PV as _PV2, Out as _Out2
+    ET = dict((e['name'], e['value']) for e in P.enums[[k_ for k_ in P.enums if k_.endswith('::html_data_type')][0]]['enumerators'])
+    SHAPE = {ET['plain_text']: _re2.compile(b'[^<>&]+\\Z', _re2.S), ET['html_entity']: _re2.compile(b'&[^;]*;\\Z', _re2.S), ET['html_tag']: _re2.compile(b'<[^>]*>\\Z', _re2.S),
+             ET['html_comment']: _re2.compile(b'<!--(?:[^<>&-]|-(?!-))*-->\\Z', _re2.S)}
+    SPECIAL = [sgn for sgn in (60, 62, 38, 59, 33, 45)]
+
+    def tok_hooks():
+        def push(it, fn, i, env):
+            ctor = [j for j in fn.walk(i) if fn.N(j)['k'] in ('CXXConstructExpr', 'CXXTemporaryObjectExpr') and (fn.type_of(fn.N(j)) or '').endswith('entry') and len(fn.args(j)) == 3]
+            if not ctor:
+                raise absint.Unsupported('push_back of something that is not entry(b,e,t)')
+            a = [it.rvalue(fn, x, env) for x in fn.args(ctor[0])]
+            if not (isinstance(a[0], _PV2) and isinstance(a[1], _PV2) and isinstance(a[2], AV)):
+                raise absint.Unsupported('entry arguments')
+            if not a[2].is_const():
+                it.split_on(a[2].deps)
+            it.events.append((a[0].off, a[1].off, a[2].lo))
+            return AV.const(0)
+        nop = lambda it, fn, i, env: AV.const(0)
+        return {'std::vector::push_back': push, 'std::vector::emplace_back': push, 'std::vector::clear': nop, 'std::vector::reserve': nop}
+
+    def run_tok(tmpl, free):
+        def runs(it):
+            el, k_ = [], 0
+            for j, v in enumerate(tmpl):
+                if j in free:
+                    el.append(it.inbyte(k_))
+                    k_ += 1
+                else:
+                    el.append(AV.const(v - 256 if v > 127 else v))
+            a = _Arr2(el + [AV.const(0)], 'input')
+            it.hooks = tok_hooks()
+            it.events = []
+            it.call_fn(sp, [_PV2(a, 0), _PV2(a, len(tmpl)), _Out2('tags')])
+            return list(it.events)
+        nb = 0
+        fr = sorted(free)
+        for (bx, ev, it) in absint.explore(P, runs, [[(-128, 127)] * len(fr)]):
+            nb += 1
+            # tiling
+            pos = 0
+            for (b_, e_, t_) in ev:
+                if b_ != pos or e_ <= b_ or e_ > len(tmpl):
+                    return 'box %s: entries %s do not tile the input of %d bytes' % (bx, ev, len(tmpl)), nb
+                pos = e_
+            if pos != len(tmpl):
+                return 'box %s: entries %s stop at %d of %d bytes' % (bx, ev, pos, len(tmpl)), nb
+            cands = []
+            for (lo, hi) in bx:
+                c = set([lo, hi]) | set(x for x in SPECIAL if lo <= x <= hi)
+                cands.append(sorted(c))
+            for combo in _it.product(*cands):
+                bs = list(tmpl)
+                for p_, v in zip(fr, combo):
+                    bs[p_] = v & 0xFF
+                bs = bytes(bs)
+                for (b_, e_, t_) in ev:
+                    rx = SHAPE.get(t_)
+                    if t_ != ET['invalid_data'] and (rx is None or not rx.match(bs[b_:e_])):
+                        nm_ = [k2 for k2, v2 in ET.items() if v2 == t_]
+                        return 'input %r: bytes %r emitted as %s' % (bs, bs[b_:e_], nm_[0] if nm_ else t_), nb
+        return None, nb
+    maxfree = 3 if ctx.tier == 'quick' else 4
+    for L in range(0, maxfree + 1):
+        bad, nb = run_tok([0] * L, set(range(L)))
+        ctx.check(bad is None, R10, 'split_to_parts:all-inputs-of-%d-bytes' % L, bad or '', sp.where, detail={'boxes': nb})
+    for pre, k_ in ((b'<!--', maxfree), (b'a<!--', maxfree - 1), (b'<!--a--', 2), (b'<!----', 2), (b'<!--a', maxfree - 1)):
+        for kk in range(1, k_ + 1):
+            t_ = list(pre) + [0] * kk
+            bad, nb = run_tok(t_, set(range(len(pre), len(t_))))
+            ctx.check(bad is None, R10, 'split_to_parts:%s+%d-free-bytes' % (pre.decode(), kk), bad or '', sp.where, detail={'boxes': nb})
+    # complete comments with free bytes inside the opener, the text and the closer
+    for pre, nfree, post in ((b'<!--', 1, b'-->'), (b'<!--', 2, b'-->'), (b'<!--a', 1, b'b-->'), (b'x<!--', 1, b'-->y'), (b'<', 3, b'a-->'), (b'<!--a', 3, b''), (b'<!--a', 2, b'>'), (b'<!--ab', 1, b'->'),
+                             (b'<a', 2, b'>b'), (b'&a', 2, b';b'), (b'<!-', 1, b'-->'), (b'<!', 2, b'-->')):
+        t_ = list(pre) + [0] * nfree + list(post)
+        bad, nb = run_tok(t_, set(range(len(pre), len(pre) + nfree)))
+        ctx.check(bad is None, R10, 'split_to_parts:%s+%d-free-bytes+%s' % (pre.decode(), nfree, post.decode()), bad or '', sp.where, detail={'boxes': nb})
+    ctx.floor(R10, 16)
+
+    # ---------------- R5 attribute value language (E3)
+    import re as _re
+    from vlib.absint import Arr as _Arr, PV as _PV
+    vpv = P.fn(ANON + 'validate_property_value')
+    LANG = _re.compile(b'(?:[^<>&]|&(?:amp|lt|gt|quot|apos|#x27|#X27|#39);)*\\Z', _re.S)
+
+    def want_of(bs):
+        return LANG.match(bytes(bs)) is not None
+    sg = lambda v: v - 256 if v > 127 else v
+
+    def run_template(tmpl, free):
+        """tmpl: list of byte values; free: positions that range over all 256 values.  Returns first disagreement or None, #boxes"""
+        def runs(it):
+            el = []
+            k = 0
+            for j, v in enumerate(tmpl):
+                if j in free:
+                    el.append(it.inbyte(k))
+                    k += 1
+                else:
+                    el.append(AV.const(sg(v)))
+            a = _Arr(el + [AV.const(0)], 'value')
+            return it.call_fn(vpv, [_PV(a, 0), _PV(a, len(tmpl))])
+        nb = 0
+        for (bx, r, it) in absint.explore(P, runs, [[(-128, 127)] * len(free)]):
+            nb += 1
+            if not (isinstance(r, AV) and r.is_const()):
+                return ('box %s: verdict not constant: %r' % (bx, r)), nb
+            # all concrete values of the box must have the same reference verdict (boxes are small after the splits the code forced);
+            # sample corners and the values the grammar distinguishes
+            cands = []
+            for (lo, hi) in bx:
+                c = set([lo, hi]) | set(sg(x) for x in (38, 60, 62, 59, 35, 0) if lo <= sg(x) <= hi)
+                cands.append(sorted(c))
+            tot_ = 1
+            for (lo, hi) in bx:
+                tot_ *= hi - lo + 1
+            if tot_ <= 4096:
+                cands = [list(range(lo, hi + 1)) for (lo, hi) in bx]      # small box: every value (the entity letters are distinguished by the reference)
+            import itertools
+            for combo in itertools.product(*cands):
+                bs = list(tmpl)
+                for pos, v in zip(sorted(free), combo):
+                    bs[pos] = v & 0xFF
+                if want_of(bs) != bool(r.lo):
+                    return ('value %r: code says %s, the attribute-value grammar says %s' % (bytes(bs), bool(r.lo), want_of(bs))), nb
+        return None, nb
+    ENT = [b'&amp;', b'&lt;', b'&gt;', b'&quot;', b'&apos;', b'&#x27;', b'&#X27;', b'&#39;']
+    for L in (0, 1, 2):
+        bad, nb = run_template([0] * L, set(range(L)))
+        ctx.check(bad is None, R5, 'validate_property_value:all-values-of-%d-bytes' % L, bad or '', vpv.where, detail={'boxes': nb})
+    for e in ENT:
+        tot, bad = 0, None
+        for pre, post in ((b'', b''), (b'a', b'b'), (b'', b'&lt;')):
+            t = list(pre + e + post)
+            for pos in range(len(pre), len(pre) + len(e)):
+                b_, nb = run_template(t, {pos})
+                tot += nb
+                bad = bad or b_
+            # truncations (the tail is cut anywhere): never accepted
+            for cut in range(1, len(e)):
+                b_, nb = run_template(list(pre + e[:cut]), set())
+                tot += nb
+                bad = bad or b_
+        ctx.check(bad is None, R5, 'validate_property_value:%s:single-byte-variations-and-truncations' % e.decode(), bad or '', vpv.where, detail={'boxes': tot})
+    # a free byte right after a complete entity and after a plain byte (the scan continues in the right place)
+    for e in (b'&lt;', b'&quot;'):
+        bad, nb = run_template(list(e + b'x' + e), {len(e)})
+        ctx.check(bad is None, R5, 'validate_property_value:%s-x-%s:middle-byte-free' % (e.decode(), e.decode()), bad or '', vpv.where, detail={'boxes': nb})
+    pp = P.fn(ANON + 'parse_properties')
+    vcalls = [i for i in pp.calls() if pp.bcallee(i) == ANON + 'validate_property_value']
+    g_v = q.call_gate(pp, lambda i: pp.bcallee(i) == ANON + 'validate_property_value', True)
+    vw = [w for w in q.field_writes(pp, 'property_data::value_begin') + q.field_writes(pp, 'property_data::value_end')]
+    ctx.check(len(vcalls) >= 1 and len(vw) >= 2 and all(pp.only_through(w, g_v) for w in vw), R5, 'parse_properties:value-recorded-only-if-validated', 'an attribute value is recorded without passing validate_property_value', pp.where)
+    for i in vcalls:
+        a = pp.args(i)
+        rb = [pp.ref_of(pp.N(w)['ch'][-1]) for w in q.field_writes(pp, 'property_data::value_begin')]
+        re_ = [pp.ref_of(pp.N(w)['ch'][-1]) for w in q.field_writes(pp, 'property_data::value_end')]
+        same = pp.ref_of(a[0]) is not None and pp.ref_of(a[1]) is not None and rb == [pp.ref_of(a[0])] and re_ == [pp.ref_of(a[1])]
+        moved = [w for r_ in (pp.ref_of(a[0]), pp.ref_of(a[1])) if r_ for w in q.writes_to(pp, r_) if any(q.between(pp, i, w, v) for v in vw)]
+        ctx.check(same and not moved, R5, 'parse_properties:validated-range-is-the-recorded-value', 'the range validated is not the range recorded as the attribute value', pp.loc(i))
+    ctx.floor(R5, 12)
     ctx.floor(R1, 30)
     ctx.floor(R2, 4)
     ctx.floor(R6, 18)
